@@ -279,7 +279,36 @@ def _relevant(meta, prop, unit=None, name=None):
     return unit is not None and name in _CLOSURE.get(unit, ())
 
 
+# Bounded / loop-free Kani harnesses for code outside Verus' reach (slice patterns, iterator adapters). kind says what the
+# harness is: 'complete' = loop-free over the full input domain of the function; 'bounded' = a stated bound, never counted as proved.
+KANI_STANDINS = {
+    'C19': [
+        dict(host='src/local/mod.rs', file='harness_hdr.rs', mod='verif_harness_hdr', harness='header_parse_total', function='Header::parse', kind='complete', tiers=('quick', 'thorough'),
+             label='Header::parse never panics and accepts only complete TZif headers (Kani/CBMC, loop-free, inputs up to 48 bytes: the function reads 44)'),
+        dict(host='src/local/timezone.rs', file='harness_tzif.rs', mod='verif_harness_tzif', harness='tzif_v1_1_1', function='TimeZone::from_tzif', kind='bounded', tiers=('quick', 'thorough'),
+             label='BOUNDED (version-1 file, exactly 1 transition and 1 type, all 15 table bytes symbolic): from_tzif never panics, returns only data that passes validate(), Ok exactly when the type index is 0'),
+        dict(host='src/local/timezone.rs', file='harness_tzif.rs', mod='verif_harness_tzif', harness='tzif_v1_1_0', function='TimeZone::from_tzif', kind='bounded', tiers=('quick', 'thorough'),
+             label='BOUNDED (version-1 file, 1 transition, 0 types, table bytes symbolic): from_tzif refuses the file'),
+        dict(host='src/local/timezone.rs', file='harness_tzif.rs', mod='verif_harness_tzif', harness='tzif_v1_0_1', function='TimeZone::from_tzif', kind='bounded', tiers=('thorough',),
+             label='BOUNDED (version-1 file, 0 transitions, 1 type, table bytes symbolic): from_tzif accepts the file without a panic'),
+    ],
+    'C18': [
+        dict(host='src/local/timezone.rs', file='harness_tzif.rs', mod='verif_harness_tzif', harness='tzif_v1_1_1', function='TimeZone::from_tzif', kind='bounded', tiers=('quick', 'thorough'),
+             label='BOUNDED (version-1 file, exactly 1 transition and 1 type, all 15 table bytes symbolic): the decoded transition time, type index and utoff are the big-endian values of the bytes'),
+        dict(host='src/local/timezone.rs', file='harness_tzif.rs', mod='verif_harness_tzif', harness='tzif_v1_0_1', function='TimeZone::from_tzif', kind='bounded', tiers=('quick', 'thorough'),
+             label='BOUNDED (version-1 file, 0 transitions, 1 type): the decoded utoff is the big-endian value of the bytes, no rule'),
+    ],
+}
+
+
 def _check_property(prop, tier, seed, mine, scratch, findings, t0):
+    import kani_engine
+    kani_pool = cf.ThreadPoolExecutor(max_workers=4)
+    kani_futs = []
+    for n, st in enumerate(KANI_STANDINS.get(prop, [])):
+        if tier in st['tiers']:
+            kani_futs.append((st, kani_pool.submit(kani_engine.run_single, st['host'], os.path.join(VERIF, 'kani', st['file']), st['mod'], st['harness'], scratch,
+                                                    900, 'kani%d' % n, st.get('stubbing', False))))
     jobs = []
     for u in mine:
         for v in u.get('variants', ['A']):
@@ -468,18 +497,29 @@ def _check_property(prop, tier, seed, mine, scratch, findings, t0):
                 out_lines.append('VIOLATION property=C19 replay=%s%s' % (rp, '' if rec.get('inputs') else ' no-failing-input-found'))
             elif verdict == 'undecided':
                 undecided.append('structural: ' + msg)
-        # Header::parse uses slice patterns (outside Verus): a loop-free Kani harness over 48 symbolic bytes and a symbolic length
-        import kani_engine
-        verdict, msg, play = kani_engine.run_single('src/local/mod.rs', os.path.join(VERIF, 'kani', 'harness_hdr.rs'), 'verif_harness_hdr', 'header_parse_total', scratch)
-        structural.append({'check': 'Header::parse never panics and accepts only complete TZif headers (Kani/CBMC, loop-free, inputs up to 48 bytes: the function reads 44)',
-                           'verdict': verdict, 'detail': msg})
+    # Kani stand-ins (started at the beginning of the check, joined here)
+    for st, fut in kani_futs:
+        try:
+            verdict, msg, play = fut.result()
+        except Exception as ex:
+            verdict, msg, play = 'undecided', 'kani driver error %r' % (ex,), None
+        structural.append({'check': st['label'], 'kind': st['kind'], 'harness': st['harness'], 'verdict': verdict, 'detail': msg})
         if verdict == 'violation':
             nviol += 1
-            rp = os.path.join(VERIF, 'replays', 'C19-kani-header_parse.json')
-            json.dump({'property': 'C19', 'obligation': 'kani harness header_parse_total', 'function': 'Header::parse', 'verus_output': msg, 'inputs': play}, open(rp, 'w'), indent=1)
-            out_lines.append('VIOLATION property=C19 replay=%s%s' % (rp, '' if play else ' no-failing-input-found'))
+            rp = os.path.join(VERIF, 'replays', '%s-kani-%s.json' % (prop, st['harness']))
+            rec = {'property': prop, 'obligation': 'kani harness %s (%s)' % (st['harness'], st['kind']), 'function': st['function'], 'verus_output': msg, 'inputs': play}
+            if not play:
+                try:
+                    import cesearch
+                    ce = cesearch.search(prop, None, None, scratch, tier)
+                    if ce:
+                        rec.update(ce)
+                except Exception as ex:
+                    rec['ce_search_error'] = repr(ex)
+            json.dump(rec, open(rp, 'w'), indent=1)
+            out_lines.append('VIOLATION property=%s replay=%s%s' % (prop, rp, '' if rec.get('inputs') else ' no-failing-input-found'))
         elif verdict == 'undecided':
-            undecided.append('kani Header::parse: ' + msg)
+            undecided.append('kani %s: %s' % (st['harness'], msg))
 
     # ---------------- evidence ----------------
     wall = time.time() - t0
